@@ -30,10 +30,13 @@ Record state := {
   ints : list wrec;                    (* registered interests *)
   wlock : option Z;                    (* holder of iv_wait_lock *)
   reaped : list Z;                     (* pids whose termination wait4 has returned (gone) *)
-  spawning : option (Z * Z * Z)        (* register_spawn between fork and insert: (thread, interest, pid) *)
+  spawning : option (Z * Z * Z);       (* register_spawn between fork and insert: (thread, interest, pid) *)
+  kpend : list (Z * Z);                (* ground truth: status changes (pid, status) the children went through and that
+                                          wait4 has not reported yet, oldest first *)
+  draining : bool                      (* iv_wait_got_sigchld has reaped something and not yet seen wait4 return 0 / ECHILD *)
 }.
 
-Definition init : state := {| ints := []; wlock := None; reaped := []; spawning := None |}.
+Definition init : state := {| ints := []; wlock := None; reaped := []; spawning := None; kpend := []; draining := false |}.
 
 (* iv_wait_status_dead: exited or killed (not stopped 0x..7f, not continued 0xffff) *)
 Definition is_dead (st : Z) : bool := negb (st mod 128 =? 127).
@@ -49,7 +52,10 @@ Inductive label :=
 | WDeliver (t id st : Z)         (* handler(cookie, st, ..) *)
 | WUnreg (t id : Z)              (* iv_wait_interest_unregister *)
 | WKill (t id sig : Z) (performed : bool)   (* iv_wait_interest_kill: performed = kill() was called *)
-| WBlock (t : Z).                (* thread t blocks in its kernel wait *)
+| WBlock (t : Z)                 (* thread t blocks in its kernel wait *)
+| WNone (t : Z)                  (* wait4 returned 0 / ECHILD in iv_wait_got_sigchld of thread t: the drain is complete *)
+| WChange (t pid st : Z)         (* ground truth (logged by thread t): the child changed state (the scenario scripted it; SIGCHLD was raised) *)
+| WIdle (t : Z).                 (* (logged by thread t) every thread is blocked and nothing is pending: the whole process is at rest *)
 
 Definition find (id : Z) (l : list wrec) : option wrec := List.find (fun w => w_id w =? id) l.
 Definition find_pid (pid : Z) (l : list wrec) : option wrec :=
@@ -82,7 +88,20 @@ Definition new_rec (t id pid : Z) : wrec :=
   {| w_id := id; w_thr := t; w_pid := pid; w_dead := false; w_queue := []; w_frame := None; w_hist := []; w_deliv := [] |}.
 
 Definition with_ints (s : state) (l : list wrec) : state :=
-  {| ints := l; wlock := wlock s; reaped := reaped s; spawning := spawning s |}.
+  {| ints := l; wlock := wlock s; reaped := reaped s; spawning := spawning s; kpend := kpend s; draining := draining s |}.
+
+Fixpoint remove_first (pid st : Z) (l : list (Z * Z)) : list (Z * Z) :=
+  match l with
+  | [] => []
+  | (p, x) :: r => if (p =? pid) && (x =? st) then r else (p, x) :: remove_first pid st r
+  end.
+Definition mem_pair (pid st : Z) (l : list (Z * Z)) : bool := existsb (fun e => (fst e =? pid) && (snd e =? st)) l.
+Definition owes (pid : Z) (l : list (Z * Z)) : bool := existsb (fun e => fst e =? pid) l.
+(* at rest no live interest's child has an unreported status change *)
+Definition idle_ok (l : list wrec) (k : list (Z * Z)) : bool := forallb (fun w => w_dead w || negb (owes (w_pid w) k)) l.
+
+Definition with_k (s : state) (k : list (Z * Z)) (d : bool) : state :=
+  {| ints := ints s; wlock := wlock s; reaped := reaped s; spawning := spawning s; kpend := k; draining := d |}.
 
 Inductive outcome := Ok (s : state) | Crash.
 
@@ -91,10 +110,10 @@ Definition reap_one (fixed : bool) (s : state) (pid st : Z) : outcome :=
   let gone := if is_dead st then pid :: reaped s else reaped s in
   match find_pid pid (ints s) with
   | Some p =>
-      Ok {| ints := upd_rec (w_id p) (set_reap st) (ints s); wlock := wlock s; reaped := gone; spawning := spawning s |}
+      Ok {| ints := upd_rec (w_id p) (set_reap st) (ints s); wlock := wlock s; reaped := gone; spawning := spawning s; kpend := kpend s; draining := draining s |}
   | None =>
       if is_dead st then
-        (if fixed then Ok {| ints := ints s; wlock := wlock s; reaped := gone; spawning := spawning s |}
+        (if fixed then Ok {| ints := ints s; wlock := wlock s; reaped := gone; spawning := spawning s; kpend := kpend s; draining := draining s |}
          else Crash)                      (* iv_avl_tree_delete(&.., &p->avl_node) with p == NULL *)
       else Ok s
   end.
@@ -104,13 +123,13 @@ Definition step_gen (fixed : bool) (s : state) (l : label) : option state :=
   | WLock t =>
       match wlock s with
       | Some _ => None
-      | None => Some {| ints := ints s; wlock := Some t; reaped := reaped s; spawning := spawning s |}
+      | None => Some {| ints := ints s; wlock := Some t; reaped := reaped s; spawning := spawning s; kpend := kpend s; draining := draining s |}
       end
   | WUnlock t =>
-      if holds s t then
+      if holds s t && negb (draining s) then     (* the reaper leaves only after wait4 had nothing more to report *)
         match spawning s with
         | Some _ => None               (* the insertion belongs to the same critical section as the fork *)
-        | None => Some {| ints := ints s; wlock := None; reaped := reaped s; spawning := None |}
+        | None => Some {| ints := ints s; wlock := None; reaped := reaped s; spawning := None; kpend := kpend s; draining := draining s |}
         end
       else None
   | WReg t id pid =>
@@ -127,7 +146,7 @@ Definition step_gen (fixed : bool) (s : state) (l : label) : option state :=
         match find id (ints s), find_pid pid (ints s), spawning s with
         | None, None, None =>
             if mem pid (reaped s) then None
-            else Some {| ints := ints s; wlock := wlock s; reaped := reaped s; spawning := Some (t, id, pid) |}
+            else Some {| ints := ints s; wlock := wlock s; reaped := reaped s; spawning := Some (t, id, pid); kpend := kpend s; draining := draining s |}
         | _, _, _ => None
         end
       else None
@@ -136,7 +155,7 @@ Definition step_gen (fixed : bool) (s : state) (l : label) : option state :=
         match spawning s with
         | Some (t', id', pid) =>
             if (t' =? t) && (id' =? id) then
-              Some {| ints := new_rec t id pid :: ints s; wlock := wlock s; reaped := reaped s; spawning := None |}
+              Some {| ints := new_rec t id pid :: ints s; wlock := wlock s; reaped := reaped s; spawning := None; kpend := kpend s; draining := draining s |}
             else None
         | None => None
         end
@@ -146,8 +165,12 @@ Definition step_gen (fixed : bool) (s : state) (l : label) : option state :=
         match spawning s with
         | Some _ => None
         | None =>
-            if mem pid (reaped s) then None        (* kernel: a reaped pid does not report again *)
-            else match reap_one fixed s pid st with Ok s' => Some s' | Crash => None end
+            if mem pid (reaped s) || negb (mem_pair pid st (kpend s)) then None
+              (* kernel: a reaped pid does not report again; only changes that happened are reported *)
+            else match reap_one fixed s pid st with
+                 | Ok s' => Some (with_k s' (remove_first pid st (kpend s)) true)
+                 | Crash => None
+                 end
         end
       else None
   | WSteal t id =>
@@ -184,6 +207,9 @@ Definition step_gen (fixed : bool) (s : state) (l : label) : option state :=
         end
       else None
   | WBlock t => if quiet_thread t (ints s) then Some s else None
+  | WNone t => if holds s t then Some (with_k s (kpend s) false) else None
+  | WChange _ pid st => Some (with_k s (kpend s ++ [(pid, st)]) (draining s))
+  | WIdle _ => if idle_ok (ints s) (kpend s) then Some s else None
   end.
 
 Definition step : state -> label -> option state := step_gen true.
@@ -207,11 +233,11 @@ Fixpoint reject_pos (s : state) (ls : list label) (k : nat) : option nat :=
    window".  Routing (status to the live interest of the pid, in reap order, to its registering thread,
    nothing after the terminating status), strangers change nothing, kill only before the reaped
    termination, no reap inside a spawn window, nothing undelivered when the thread blocks. *)
-Record mstate := { m_ints : list wrec; m_reaped : list Z; m_fork : option (Z * Z * Z) }.
+Record mstate := { m_ints : list wrec; m_reaped : list Z; m_fork : option (Z * Z * Z); m_kpend : list (Z * Z) }.
 
 Definition got_termination (t : Z) (reaped : list Z) (l : list wrec) : bool :=
   forallb (fun w => negb (w_thr w =? t) || Bool.eqb (w_dead w) (mem (w_pid w) reaped)) l.
-Definition minit : mstate := {| m_ints := []; m_reaped := []; m_fork := None |}.
+Definition minit : mstate := {| m_ints := []; m_reaped := []; m_fork := None; m_kpend := [] |}.
 
 Definition mstep (m : mstate) (l : label) : option mstate :=
   match l with
@@ -221,38 +247,39 @@ Definition mstep (m : mstate) (l : label) : option mstate :=
       match find id (m_ints m), find_pid pid (m_ints m), m_fork m with
       | None, None, None =>
           if mem pid (m_reaped m) then None
-          else Some {| m_ints := new_rec t id pid :: m_ints m; m_reaped := m_reaped m; m_fork := None |}
+          else Some {| m_ints := new_rec t id pid :: m_ints m; m_reaped := m_reaped m; m_fork := None; m_kpend := m_kpend m |}
       | _, _, _ => None
       end
   | WFork t id pid =>
       match find id (m_ints m), find_pid pid (m_ints m), m_fork m with
       | None, None, None =>
           if mem pid (m_reaped m) then None
-          else Some {| m_ints := m_ints m; m_reaped := m_reaped m; m_fork := Some (t, id, pid) |}
+          else Some {| m_ints := m_ints m; m_reaped := m_reaped m; m_fork := Some (t, id, pid); m_kpend := m_kpend m |}
       | _, _, _ => None
       end
   | WInsert t id =>
       match m_fork m with
       | Some (t', id', pid) =>
           if (t' =? t) && (id' =? id)
-          then Some {| m_ints := new_rec t id pid :: m_ints m; m_reaped := m_reaped m; m_fork := None |} else None
+          then Some {| m_ints := new_rec t id pid :: m_ints m; m_reaped := m_reaped m; m_fork := None; m_kpend := m_kpend m |} else None
       | None => None
       end
   | WReap t pid st =>
       let window := match m_fork m with Some (_, _, p) => p =? pid | None => false end in
       if window then None           (* a status of the child being spawned is reaped before its interest is inserted: missed *)
-      else if mem pid (m_reaped m) then None
+      else if mem pid (m_reaped m) || negb (mem_pair pid st (m_kpend m)) then None
       else
         let gone := if is_dead st then pid :: m_reaped m else m_reaped m in
+        let k := remove_first pid st (m_kpend m) in
         match find_pid pid (m_ints m) with
-        | Some p => Some {| m_ints := upd_rec (w_id p) (set_reap st) (m_ints m); m_reaped := gone; m_fork := m_fork m |}
-        | None => Some {| m_ints := m_ints m; m_reaped := gone; m_fork := m_fork m |}       (* stranger: nothing changes *)
+        | Some p => Some {| m_ints := upd_rec (w_id p) (set_reap st) (m_ints m); m_reaped := gone; m_fork := m_fork m; m_kpend := k |}
+        | None => Some {| m_ints := m_ints m; m_reaped := gone; m_fork := m_fork m; m_kpend := k |}       (* stranger: nothing changes *)
         end
   | WSteal t id =>
       match find id (m_ints m) with
       | Some w =>
           if (w_thr w =? t) && thread_frames_done t (m_ints m)
-          then Some {| m_ints := upd_rec id set_steal (m_ints m); m_reaped := m_reaped m; m_fork := m_fork m |} else None
+          then Some {| m_ints := upd_rec id set_steal (m_ints m); m_reaped := m_reaped m; m_fork := m_fork m; m_kpend := m_kpend m |} else None
       | None => None
       end
   | WDeliver t id st =>
@@ -261,7 +288,7 @@ Definition mstep (m : mstate) (l : label) : option mstate :=
           match w_frame w with
           | Some (x :: rest) =>
               if (w_thr w =? t) && (x =? st)
-              then Some {| m_ints := upd_rec id (set_deliver st rest) (m_ints m); m_reaped := m_reaped m; m_fork := m_fork m |}
+              then Some {| m_ints := upd_rec id (set_deliver st rest) (m_ints m); m_reaped := m_reaped m; m_fork := m_fork m; m_kpend := m_kpend m |}
               else None
           | _ => None
           end
@@ -269,7 +296,7 @@ Definition mstep (m : mstate) (l : label) : option mstate :=
       end
   | WUnreg t id =>
       match find id (m_ints m) with
-      | Some w => if w_thr w =? t then Some {| m_ints := remove id (m_ints m); m_reaped := m_reaped m; m_fork := m_fork m |} else None
+      | Some w => if w_thr w =? t then Some {| m_ints := remove id (m_ints m); m_reaped := m_reaped m; m_fork := m_fork m; m_kpend := m_kpend m |} else None
       | None => None
       end
   | WKill t id sig performed =>
@@ -283,6 +310,12 @@ Definition mstep (m : mstate) (l : label) : option mstate :=
       (* at rest: everything reaped for t's interests is delivered, and an interest whose pid's termination has been
          reaped has received that status (in particular a spawned child's, however quickly it exited) *)
       if quiet_thread t (m_ints m) && got_termination t (m_reaped m) (m_ints m) then Some m else None
+  | WNone _ => Some m
+  | WChange _ pid st => Some {| m_ints := m_ints m; m_reaped := m_reaped m; m_fork := m_fork m; m_kpend := m_kpend m ++ [(pid, st)] |}
+  | WIdle _ =>
+      (* ground truth: at rest every status change of a child with a live interest has been reaped (and, with the
+         WBlock clauses, delivered); in particular no such child is left a zombie *)
+      if idle_ok (m_ints m) (m_kpend m) then Some m else None
   end.
 
 Fixpoint mrun (m : mstate) (ls : list label) : option mstate :=
